@@ -230,12 +230,14 @@ PROPS.update({
               "Lean theorem c23: in EVERY run of the gateway model every datagram emitted is at most 8192 bytes, has a length field equal to its size and decodes "
               "as a packet of a gateway-to-client type (via the per-site permissions + the C21 codec theorems); monitor Spec.c23 on every datagram the real "
               "gateway sends; the client-library half is decided by the client suite (when built)",
-              "theorems c23, datagramOk_of_snOk, sites_c23 (all runs); monitor Spec.c23 on implementation traces"),
+              "theorems c23, datagramOk_of_snOk, sites_c23 (all runs), c23_emission_sites (the regenerated inventory of the code's client-link emission sites is the "
+              "reviewed one the model was written against); monitor Spec.c23 on implementation traces"),
     "C24": gw("C24",
               "Lean theorem c24 / c24_monitor: in EVERY run of the gateway model every MQTT packet emitted satisfies Spec.valid311 (QoS 0-2, PUBLISH topic non-empty "
               "without wildcards, filters non-empty, CONNECT will flag iff non-empty will topic, will QoS <= 2); monitor Spec.c24 on every packet the real "
               "gateway writes to the broker; tie: gateway suite",
-              "theorems c24, c24_monitor, sites_c24 (all runs); monitor Spec.c24 on implementation traces"),
+              "theorems c24, c24_monitor, sites_c24 (all runs), c24_emission_sites (the regenerated inventory of the code's broker-link emission sites is the reviewed "
+              "one the model was written against); monitor Spec.c24 on implementation traces"),
 })
 
 PROPS.update({
